@@ -262,7 +262,7 @@ class MetropolisChain(MarkovChain):
 
             # if widths are not specified, take 5% of the starting values (unless they're zero)
             if widths is None:
-                widths = [v * 0.05 if v != 0 else 1.0 for v in start]
+                widths = [abs(v) * 0.05 if v != 0 else 1.0 for v in start]
 
             # create a list of parameter objects
             self.params = [Parameter(value=v, sigma=s) for v, s in zip(start, widths)]
